@@ -356,3 +356,30 @@ Definition rpc_direct (crash : bool) (h : hres) : rres :=
   | HReturn r c => RResult r c
   | HPanics => if crash then RResult None codeInternal else RPropagatedPanic
   end.
+
+(* ------------------------------------------------------------------ several requests through ONE middleware instance *)
+(* timeoutHandler{handler, dt} and the closure of UnaryTimeoutInterceptor hold nothing mutable: tw, done,
+   panicChan, ctx (REST :60-71) and resp, err, lock, done, panicChan (RPC :18-26) are created per call.  So m
+   concurrent requests are the product of m copies of the per-request LTS sharing nothing; a label of the
+   product names the request that moves. *)
+Section Product.
+  Context {S L : Type} (stp : L -> S -> option S).
+  Fixpoint grun (ls : list L) (s : S) : option S :=
+    match ls with
+    | [] => Some s
+    | l :: r => match stp l s with Some s' => grun r s' | None => None end
+    end.
+  Definition pstep (il : nat * L) (ss : list S) : option (list S) :=
+    match nth_error ss (fst il) with
+    | Some s => match stp (snd il) s with Some s' => Some (set_nth (fst il) s' ss) | None => None end
+    | None => None
+    end.
+  Fixpoint prun (ls : list (nat * L)) (ss : list S) : option (list S) :=
+    match ls with
+    | [] => Some ss
+    | il :: r => match pstep il ss with Some ss' => prun r ss' | None => None end
+    end.
+  (* what request i does in a schedule of the product *)
+  Definition proj (i : nat) (ls : list (nat * L)) : list L :=
+    map snd (filter (fun il => Nat.eqb (fst il) i) ls).
+End Product.
